@@ -132,9 +132,9 @@ func (e *Engine) mapDelete(f *frame, m, kv Val) {
 
 // mapIter is the executor-side value of a range-over-map iterator.
 type mapIter struct {
-	m   Val
-	mi  *mapInfo
-	str bool
+	m    Val
+	mi   *mapInfo
+	cell *Cell // ghost: the set of keys already produced (Array K Bool), loop-carried
 }
 
 func (e *Engine) rangeStart(f *frame, x *ssa.Range) Val {
@@ -143,10 +143,13 @@ func (e *Engine) rangeStart(f *frame, x *ssa.Range) Val {
 		bail("range over %s", m.T)
 	}
 	it := &mapIter{m: m, mi: e.mapInfoOf(m.T)}
+	it.cell = &Cell{Name: "visited", T: nil}
+	f.st.Cells[it.cell] = Val{C: []*smt.Term{e.X.ConstArray(smt.Array(it.mi.ksort, smt.Bool), e.X.False)}}
 	if e.iters == nil {
 		e.iters = map[ssa.Value]*mapIter{}
 	}
 	e.iters[x] = it
+	e.lastIter = it
 	return Val{T: x.Type(), C: []*smt.Term{}}
 }
 
@@ -158,21 +161,19 @@ func (e *Engine) rangeNext(f *frame, x *ssa.Next) Val {
 	if it == nil {
 		bail("range next on unknown iterator")
 	}
-	for _, p := range x.Block().Preds {
-		if isBackEdge(p, x.Block()) {
-			bail("loop over a map (needs a ghost visited set)")
-		}
-	}
 	mi := it.mi
 	ref := it.m.C[0]
 	hp := e.heap(f.st, mi.pKey, smt.Bool)
 	P := X.Select(hp, ref)
+	vis := f.st.Cells[it.cell].C[0]
 	k := X.Fresh("mapkey", mi.ksort)
 	ok := X.Fresh("mapnext", smt.Bool)
 	j := X.BVar("mk", mi.ksort)
 	nonNil := X.Not(X.Eq(ref, X.Const(0, 32)))
-	e.assume(X.Implies(ok, X.And(nonNil, X.Select(P, k))))
-	e.assume(X.Implies(X.Not(ok), X.Or(X.Not(nonNil), X.Forall([]*smt.Term{j}, X.Not(X.Select(P, j))))))
+	// a next key exists iff some present key has not been produced yet; it is such a key
+	e.assume(X.Implies(ok, X.And(nonNil, X.Select(P, k), X.Not(X.Select(vis, k)))))
+	e.assume(X.Implies(X.Not(ok), X.Or(X.Not(nonNil), X.Forall([]*smt.Term{j}, X.Implies(X.Select(P, j), X.Select(vis, j))))))
+	f.st.Cells[it.cell] = Val{C: []*smt.Term{X.Ite(ok, X.Store(vis, k, X.True), vis)}}
 	kv := e.intVal(mi.kt, k)
 	val := Val{T: mi.vt}
 	for i, vk := range mi.vKeys {
